@@ -397,11 +397,20 @@ impl<'dbg> FatDieRef<'dbg, Function> {
     }
 
     pub fn prolog_end_place(&self) -> Result<PlaceDescriptor<'_>, Error> {
-        let mut place = self.prolog_start_place()?;
+        let start = self.prolog_start_place()?;
+        let ranges = self.ranges();
+
+        // look for a prologue_end row inside the function only, compilers are not obliged to
+        // mark one (gcc does not): fall back to the function start
+        let mut place = start.clone();
         while !place.prolog_end {
             match place.next() {
-                None => break,
-                Some(next_place) => place = next_place,
+                Some(next_place)
+                    if !next_place.end_sequence && next_place.address.in_ranges(&ranges) =>
+                {
+                    place = next_place
+                }
+                _ => return Ok(start),
             }
         }
 
